@@ -286,7 +286,7 @@ def run_shard(prop, tier, seed, shard, nshards, only_index=None):
                         k['example'] = {'case': repr(case), 'violation': jsonable(v)}
                 else:
                     out['nviol'] += 1
-                    sig = '%s|%s|%s' % (case.get('op') or case.get('view') or case.get('kind'), v.get('kind'),
+                    sig = '%s|%s|%s' % (case.get('op') or case.get('form') or case.get('sel') or case.get('fn') or case.get('view') or case.get('kind'), v.get('fn') or v.get('kind'),
                                         (v.get('detail') or v.get('mode') or '')[:60])
                     out['vsig'][sig] = out['vsig'].get(sig, 0) + 1
                     if len(out['violations']) < MAX_STORED_VIOLATIONS:
